@@ -37,12 +37,21 @@ pub struct Corpus {
 }
 
 pub fn n_programs(prop: &str, tier: &str) -> usize {
-    let _ = prop;
-    if tier == "thorough" { 320 } else { 48 }
+    // C22 compiles 3-4 variants per program
+    match (prop, tier) {
+        ("C22", "thorough") => 160,
+        ("C22", _) => 32,
+        (_, "thorough") => 320,
+        _ => 48,
+    }
 }
 pub fn runs_per_program(prop: &str, tier: &str) -> u64 {
-    let _ = prop;
-    if tier == "thorough" { 20_000 } else { 2_000 }
+    match (prop, tier) {
+        ("C22", "thorough") => 20_000,
+        ("C22", _) => 3_000,
+        (_, "thorough") => 20_000,
+        _ => 2_000,
+    }
 }
 
 /// Generate program `idx` of the corpus of `prop` for `seed` (independent of the tier, so that the
@@ -121,6 +130,21 @@ pub fn generate(prop: &str, seed: u64, tier: &str, programs: Option<usize>) -> C
                 k == 1 || unsupported_shape(&v.1).is_none()
             });
             c.variants_dropped += before - vs.len();
+            // E3_INJECT_SPLIT=1 (harness self-test only, never set by the registered checks): give p0 a
+            // variant that dfir_lang rejects (a same-tick cycle), to exercise the compile-split path
+            if idx == 0 && std::env::var("E3_INJECT_SPLIT").is_ok() {
+                let mut bad = vs[0].1.clone();
+                if let Some(i) = bad.nodes.iter().position(|n| !n.ins.is_empty()) {
+                    let u = bad.nodes.len();
+                    let old = bad.nodes[i].ins[0];
+                    bad.nodes.push(e3_core::ast::Node { op: e3_core::ast::Op::Union, ins: vec![old, e3_core::ast::Src { node: u + 1, port: 0 }] });
+                    bad.nodes.push(e3_core::ast::Node { op: e3_core::ast::Op::Tee, ins: vec![e3_core::ast::Src { node: u, port: 0 }] });
+                    bad.nodes[i].ins[0] = e3_core::ast::Src { node: u + 1, port: 1 };
+                    bad.emit_order.push(u);
+                    bad.emit_order.push(u + 1);
+                    vs.push(("injected_cycle".to_string(), bad));
+                }
+            }
             add_entry(&mut c, format!("p{idx}"), vs);
             break;
         }
